@@ -22,12 +22,16 @@ RULE = (
     "pass over every generated function body (each local declared once, before its first use, right-hand side mentions "
     "only parameters/accessors, literals, <cmath> functions and earlier locals). distinct = distinct programs; "
     "non-trivial = sympy.cse extracts at least one temporary for the program (counted from the generated C++ / the "
-    "compiled Python block)."
+    "compiled Python block). Also the programs renamed so that inputs are called _t0.._t4, and a block-size sweep (blocks of "
+    "1..64 statements, rows with more temporaries than statements)."
 )
 ASSUMPTIONS = ["bounds as C01/C02; Python temporaries are observed behaviourally (a temporary used before assignment raises)"]
 REL = 1e-9
 CMATH = {"sin", "cos", "tan", "atan", "atan2", "tanh", "exp", "log", "sqrt", "pow", "fabs", "M_PI", "M_E", "asin", "acos",
          "sinh", "cosh", "double", "L"}
+
+
+TEMP_NAMED = ("cse-nest3", "cse-dtshare", "cse-temp-is-output", "cse-identity-outs", "cse-const-outs")
 
 
 def with_sensors(d):
@@ -43,9 +47,16 @@ def with_sensors(d):
 
 def cases(tier, seed):
     fam = [with_sensors(d) for d in space.family_cse(tier)]
+    # the same programs with inputs that are NAMED like CSE temporaries (_t0, _t1, ...): an accepted model whose symbol names
+    # coincide with the names the generator invents must still compile and give the same values with CSE on and off
+    tn = {"x": "_t0", "y": "_t1", "u": "_t2", "c": "_t3", "z": "_t4"}
+    named = [space.rename_def(d, tn) for d in fam if d["name"] in TEMP_NAMED]
+    # block-size sweep: blocks of 1..64 statements (n, n*n, n*k, m*n), rows with more temporaries than statements
+    sizes = space.family_sizes(tier)
+    fam = fam + named + sizes
     for d in fam:
         yield {"kind": "py", "def": d, "seed": seed, "per_symbol": 2 if tier == "quick" else 3}
-    sub = (fam[::3] + [d for d in fam if "manytemps" in d["name"] and d not in fam[::3]]) if tier == "quick" else fam
+    sub = (fam[::3] + [d for d in fam if ("manytemps" in d["name"] or d in named[:2] or d in sizes) and d not in fam[::3]]) if tier == "quick" else fam
     for d in sub:
         yield {"kind": "cpp", "def": d, "seed": seed}
 
